@@ -1,8 +1,8 @@
 SPECIFICATION Spec
 CONSTANTS
-  Senders = {"s1", "s2", "s3"}
-  NInd = 1
-  NCb = 2
+  Senders = {"s1", "s2"}
+  NInd = 3
+  NCb = 1
   MaxQ = 2
   LocalQueueRef = TRUE
   StopOrder = "listener-first"
